@@ -102,6 +102,7 @@ Section Prog.
     match s with
     | SAssign _ _ e => nonan_tb m e
     | SCondJmp _ (CExpr e) _ _ => nonan_b m e
+    | SDecl t [(d, Some e)] => nonan_tb (update m (VLoc d) (default_of t)) e
     | _ => true
     end.
 
